@@ -482,7 +482,15 @@ func runCase(t *testing.T, in Input) Obs {
 			}
 			obs.Served = append(obs.Served, &u)
 		}
+		// a call that never returns (every goroutine of the bubble blocked for good) would end the
+		// whole test binary with synctest's deadlock panic: after a day of fake time release the
+		// silent mocks instead, so that the case is reported with what the call then returns.
+		watchdog := time.AfterFunc(24*time.Hour, func() {
+			obs.Note += "watchdog: call still running after 24h of fake time; "
+			cancel()
+		})
 		func() {
+			defer watchdog.Stop()
 			defer func() {
 				if r := recover(); r != nil {
 					obs.Panic = true
